@@ -24,6 +24,7 @@ yields and how it ends).  From `Lemmas/C06.lean`: `ValidEdges`, `dimsOf`, `InCel
 membership), `GuessesOK`, `Proper`.
 
 Map sentence → theorem:
+ all of (1)–(4) in one statement: `split_into_bins_spec`;
  (1) `cell_is_subflow`, `cells_share_nothing`, `fill_one`, `fill_error_is_cells`, `route_inCell`, `subflow_halfopen`;
  (2) `outside_ignored`, `route_outside`;
  (3) `result_shape`, `result_count_le`, `result_count_stop`, `compute_raise`, `compute_complete`
@@ -605,6 +606,41 @@ theorem compute_complete {s : SIB α σ} (he : ValidEdges s.edges) (hn : NotNest
   refine ⟨hfin, fun p cst hp => result_count_le names an av he hs p cst hp, ?_⟩
   obtain ⟨p, cst, hc, hlen, _⟩ := result_count_stop names an av he hs hfin
   exact ⟨p, cst, hc, hlen⟩
+
+/-- **The property in one statement** (sentences 1–4).  Build a `SplitIntoBins` from any edges around any
+analysis, fill any flow that is accepted, iterate `compute()`: the `j`-th value yielded is a histogram over the
+given edges, of the regular shape of the edges, whose cell `p` — for *every* cell `p` — holds the `j`-th result
+that a private copy of the analysis computes after being filled with exactly the sub-flow of the values routed
+to `p` (`route_inCell`: the values whose argument lies in the half-open cell `p`), in arrival order; and its
+context is the context of the last value inside the edges, updated by the argument variable. -/
+theorem split_into_bins_spec {seq : Option σ} {b : Bool} {edges : Edges α} {s0 s : SIB α σ}
+    (guess : Nat → Nat → Nat → Int) (flow : List (Value D))
+    (hnew : (SIB.new names seq b edges : Except (Exc ε) (SIB α σ)) = .ok s0)
+    (hrun : SIB.fillAll names an av guess s0 flow = .ok s)
+    (j : Nat) (h : Hist α ρ) (c : Slots) (hj : (SIB.compute names an av s).out[j]? = some (h, c)) :
+    ∃ init, seq = some init ∧ h.edges = edges ∧ NArr.HasShape (dimsOf edges.axes) h.bins ∧
+      (∀ p, PathIn p (dimsOf edges.axes) →
+        ∃ cst r, an.fillAll init (subflow names av guess edges (dimsOf edges.axes) p flow) = .ok cst ∧
+          (an.compute cst).out[j]? = some r ∧ cellAt h.bins p = some r) ∧
+      C14.updateContext names true
+        (match (insideFlow names av guess edges (dimsOf edges.axes) flow).getLast? with
+         | none => emptyD names.length
+         | some v => (C14.getDataContext names v).2) av.varCtx = .ok c := by
+  obtain ⟨init, hseq, hed, hshape, hcells⟩ := cell_is_subflow names an av guess flow hnew hrun
+  have hcur := context_is_last_inside names an av guess flow hnew hrun
+  obtain ⟨_, _, he, _⟩ := new_ok_inv names hnew
+  have he' : ValidEdges s.edges := by rw [hed]; exact he
+  have hs' : NArr.HasShape (dimsOf s.edges.axes) s.bins := by rw [hed]; exact hshape
+  cases hctx : C14.updateContext names true s.curContext av.varCtx with
+  | error e => simp [compute_context_error names an av s hctx] at hj
+  | ok ctx =>
+    obtain ⟨hc, hhe, hhs, hres⟩ := result_shape names an av he' hs' hctx j h c hj
+    rw [hed] at hhe hhs
+    refine ⟨init, hseq, hhe, hhs, ?_, by rw [← hcur, hctx, hc]⟩
+    intro p hp
+    obtain ⟨cst, hcst, hfill⟩ := hcells p hp
+    obtain ⟨r, hr, hcr⟩ := hres p cst hcst
+    exact ⟨cst, r, hfill, hr, hcr⟩
 
 /-! ### (4) what `_update_context` does to the context -/
 
